@@ -200,31 +200,56 @@ impl Property for C17 {
             (CombinedKey::Secp256k1(_), false) | (CombinedKey::Ed25519(_), true) => {}
             _ => return Err("imported key has the wrong variant".into()),
         }
-        // an imported secp256k1 key taking over a record that was built by an ed25519 CombinedKey: the
-        // record then carries both entries and CombinedKey verifies against the (valid) secp256k1 one
-        if !kc.ed {
-            let r = guarded(|| -> Result<(), String> {
-                let ed = CombinedKey::Ed25519(ed25519_dalek::SigningKey::from_bytes(&[7u8; 32]));
-                let mut e = Enr::<CombinedKey>::builder().udp4(9).build(&ed).map_err(|e| format!("build: {e:?}"))?;
-                e.set_tcp4(kc.ports.first().copied().unwrap_or(1), &key).map_err(|e| format!("update of an ed25519-built record with the imported secp256k1 key failed: {e:?}"))?;
-                let pairs: Vec<(Vec<u8>, Vec<u8>)> = e.iter().map(|(k, v)| (k.clone(), v.to_vec())).collect();
-                if record::verify_fields(Scheme::Secp, &want_pk, e.seq(), &pairs, e.signature()) != Verdict::Valid {
-                    return Err("record taken over with the imported key does not verify under its public key (independent verifier)".into());
+        // the imported key takes over a record that currently carries another key, through every kind of
+        // update.  Previous owners: another key of the same scheme; for an imported secp256k1 key also an
+        // ed25519 CombinedKey (the record then carries both entries and CombinedKey verifies against the
+        // valid secp256k1 one).  (ed25519 taking over a secp256k1 record is the recorded known finding.)
+        {
+            let owners: Vec<CombinedKey> = if kc.ed {
+                vec![CombinedKey::Ed25519(ed25519_dalek::SigningKey::from_bytes(&[7u8; 32]))]
+            } else {
+                let mut one = [0u8; 32];
+                one[31] = 5;
+                vec![
+                    CombinedKey::Ed25519(ed25519_dalek::SigningKey::from_bytes(&[7u8; 32])),
+                    CombinedKey::Secp256k1(k256::ecdsa::SigningKey::from_slice(&one).unwrap()),
+                ]
+            };
+            let port = kc.ports.first().copied().unwrap_or(1);
+            for owner in &owners {
+                for path in 0..7 {
+                    let r = guarded(|| -> Result<(), String> {
+                        let mut e = Enr::<CombinedKey>::builder().udp4(9).build(owner).map_err(|e| format!("build: {e:?}"))?;
+                        let what = match path {
+                            0 => e.set_tcp4(port, &key).map(|_| "set_tcp4"),
+                            1 => e.set_udp_socket("10.0.0.1:30303".parse().unwrap(), &key).map(|_| "set_udp_socket"),
+                            2 => e.set_tcp_socket("[fe80::1]:9".parse().unwrap(), &key).map(|_| "set_tcp_socket"),
+                            3 => e.set_seq(77, &key).map(|_| "set_seq"),
+                            4 => e.remove_key("udp", &key).map(|_| "remove_key"),
+                            5 => e.insert("x", &port, &key).map(|_| "insert"),
+                            _ => e.remove_udp_socket(&key).map(|_| "remove_udp_socket"),
+                        }
+                        .map_err(|x| format!("take-over update failed: {x:?}"))?;
+                        let pairs: Vec<(Vec<u8>, Vec<u8>)> = e.iter().map(|(k, v)| (k.clone(), v.to_vec())).collect();
+                        if record::verify_fields(scheme, &want_pk, e.seq(), &pairs, e.signature()) != Verdict::Valid {
+                            return Err(format!("record taken over through {what} does not verify under the imported key's public key (independent verifier)"));
+                        }
+                        if !e.verify() {
+                            return Err(format!("record taken over through {what} with the imported key: verify() false"));
+                        }
+                        if e.public_key().encode() != want_pk {
+                            return Err(format!("record taken over through {what}: public_key() is not the imported key's"));
+                        }
+                        let bytes = alloy_rlp::encode(&e);
+                        match record::ref_decode_exact(&bytes, KeyType::Combined) {
+                            RefOutcome::Accept(r) if r.pk == want_pk => Ok(()),
+                            o => Err(format!("reference decoder does not accept the record taken over through {what}: {o:?}")),
+                        }
+                    })
+                    .map_err(|p| format!("take-over panicked: {p}"))?;
+                    r?;
                 }
-                if !e.verify() {
-                    return Err("record taken over with the imported secp256k1 key: verify() false".into());
-                }
-                if e.public_key().encode() != want_pk {
-                    return Err("record taken over with the imported secp256k1 key: public_key() is not the imported key's".into());
-                }
-                let bytes = alloy_rlp::encode(&e);
-                match record::ref_decode_exact(&bytes, KeyType::Combined) {
-                    RefOutcome::Accept(r) if r.pk == want_pk => Ok(()),
-                    o => Err(format!("reference decoder does not accept the taken-over record under the imported key: {o:?}")),
-                }
-            })
-            .map_err(|p| format!("take-over panicked: {p}"))?;
-            r?;
+            }
         }
         // records signed with the imported key verify under that public key
         let r = guarded(|| -> Result<(), String> {
